@@ -274,3 +274,59 @@ Proof.
   - cbv zeta. destruct (dest =? 0) eqn:Ed; [exact I|]. apply Z.eqb_neq in Ed. destruct Hd as [Hd|Hd]; [contradiction|].
     apply writes_in_bind; [|intros; exact I]. apply handle_error_writes; try lia. intros a Ha. left. revert Ha. apply ext_sub; lia.
 Qed.
+
+(* ================= functional statement for the single-character converters ================= *)
+Fixpoint put_bytes (m : mem) (p : Z) (l : list Z) : mem :=
+  match l with [] => m | b :: t => put_bytes (store m 1 p b) (p + 1) t end.
+Lemma store_bytes_wp l : forall p k m (Q : Z -> mem -> Prop), wp k (put_bytes m p l) Q -> wp (store_bytes p l k) m Q.
+Proof. induction l as [|b l IH]; intros p k m Q H; cbn [store_bytes put_bytes wp] in *; [exact H|]. apply IH. exact H. Qed.
+Lemma put_bytes_out l : forall m p x, ~ (p <= x < p + Z.of_nat (length l)) -> put_bytes m p l x = m x.
+Proof.
+  induction l as [|b l IH]; intros m p x Hx; cbn [put_bytes]; [reflexivity|]. cbn [length] in Hx. rewrite Nat2Z.inj_succ in Hx.
+  rewrite IH by lia. apply store_out. lia.
+Qed.
+Lemma put_bytes_in l : forall m p i, (i < length l)%nat -> put_bytes m p l (p + Z.of_nat i) = (nth i l 0) mod 256.
+Proof.
+  induction l as [|b l IH]; intros m p i Hi; cbn [length] in Hi; [lia|]. cbn [put_bytes]. destruct i as [|i].
+  - cbn [Z.of_nat nth]. rewrite Z.add_0_r. rewrite put_bytes_out by lia. apply store1_in.
+  - replace (p + Z.of_nat (S i)) with (p + 1 + Z.of_nat i) by lia. cbn [nth]. apply IH. lia.
+Qed.
+
+(* wcrtomb_s with a dest: an encodable character whose encoding (n bytes) leaves room (n < dmax) is stored as exactly those
+   bytes, *retvalp = n, EOK, and (null-slack) the rest of dest is zero; nothing else changes *)
+Theorem wcrtomb_s_spec c utf8 retvalp dest dmax wc ps m bs :
+  retvalp <> 0 -> ps <> 0 -> dest <> 0 -> 1 <= dmax <= rmax_wstr c -> dmax < 18446744073709551616 -> wc_enc utf8 wc = Some bs ->
+  Z.of_nat (length bs) < dmax -> Forall (fun b => 0 <= b < 256) bs ->
+  (retvalp + 8 <= dest \/ dest + dmax <= retvalp) ->
+  wp (wcrtomb_s c utf8 retvalp dest dmax wc ps BOS_UNKNOWN) m (fun r m' =>
+     r = EOK /\ load m' 8 retvalp = Z.of_nat (length bs) /\
+     (forall i, (i < length bs)%nat -> m' (dest + Z.of_nat i) = nth i bs 0) /\
+     (null_slack c = true -> forall x, dest + Z.of_nat (length bs) <= x < dest + dmax -> m' x = 0) /\
+     (forall x, ~ (dest <= x < dest + dmax) -> ~ (retvalp <= x < retvalp + 8) -> m' x = m x)).
+Proof.
+  intros Hr Hp Hd Hm Hbig He Hfit Hb Hdisj. unfold wcrtomb_s, chk_c_dest.
+  replace (retvalp =? 0) with false by lia. replace (ps =? 0) with false by lia. replace (dest =? 0) with false by lia.
+  replace (dmax =? 0) with false by lia. rewrite Z.eqb_refl. replace (rmax_wstr c <? dmax) with false by lia.
+  assert (Hlen : wcx_len utf8 true dest wc = Z.of_nat (length bs)). { unfold wcx_len. replace (dest =? 0) with false by lia. rewrite He. reflexivity. }
+  assert (Hby : wcx_bytes utf8 wc = bs). { unfold wcx_bytes. rewrite He. reflexivity. }
+  rewrite Hlen, Hby. cbn [wp]. replace (Z.of_nat (length bs) <? dmax) with true by lia. replace (dest =? 0) with false by lia.
+  apply store_bytes_wp. set (m1 := store m 8 retvalp (Z.of_nat (length bs))). set (m2 := put_bytes m1 dest bs).
+  assert (Hm2r : load m2 8 retvalp = Z.of_nat (length bs)).
+  { rewrite (load_ext m2 m1). { subst m1. rewrite load_store_same by lia. apply Z.mod_small. change (256 ^ 8) with 18446744073709551616. lia. }
+    intros x Hx. subst m2. apply put_bytes_out. lia. }
+  assert (Hm2b : forall i, (i < length bs)%nat -> m2 (dest + Z.of_nat i) = nth i bs 0).
+  { intros i Hi. subst m2. rewrite put_bytes_in by exact Hi. apply Z.mod_small. rewrite Forall_forall in Hb. apply Hb. apply nth_In. exact Hi. }
+  assert (Hm2o : forall x, ~ (dest <= x < dest + dmax) -> ~ (retvalp <= x < retvalp + 8) -> m2 x = m x).
+  { intros x H1 H2. subst m2. rewrite put_bytes_out by lia. subst m1. apply store_out. lia. }
+  destruct (null_slack c) eqn:Ens; cbn [wp].
+  - split; [reflexivity|]. split; [|split; [|split]].
+    + rewrite (load_ext _ m2); [exact Hm2r|]. intros x Hx. apply fill_out. lia.
+    + intros i Hi. rewrite fill_out by lia. apply Hm2b. exact Hi.
+    + intros _ x Hx. apply fill_in. lia.
+    + intros x H1 H2. rewrite fill_out by lia. apply Hm2o; assumption.
+  - split; [reflexivity|]. split; [|split; [|split]].
+    + rewrite (load_ext _ m2); [exact Hm2r|]. intros x Hx. apply store_out. lia.
+    + intros i Hi. rewrite store_out by lia. apply Hm2b. exact Hi.
+    + discriminate.
+    + intros x H1 H2. rewrite store_out by lia. apply Hm2o; assumption.
+Qed.
